@@ -16,5 +16,7 @@ func TestVerifReplay(t *testing.T) {
 		"Verif_C12_TagsUTF8":     Verif_C12_TagsUTF8,
 		"Verif_C12_CommentLines": Verif_C12_CommentLines,
 		"Verif_C14_VisitedGuard": Verif_C14_VisitedGuard,
+		"Verif_C13_Tables":       Verif_C13_Tables,
+		"Verif_C13_Imports":      Verif_C13_Imports,
 	})
 }
